@@ -603,7 +603,7 @@ where
             #[cfg(adlt_verif)]
             let force_refresh = force_refresh
                 || last_regular_refresh_index
-                    + adlt_verif_seam::knobs::lc_regular_refresh_interval()
+                    .saturating_add(adlt_verif_seam::knobs::lc_regular_refresh_interval())
                     < last_msg_index;
             if force_refresh || last_regular_refresh_index.saturating_add(100_000) < last_msg_index
             {
